@@ -40,14 +40,33 @@ _FLAGS: Dict[str, Any] = {}
 STUB = b'HTTP/1.1 200 OK\r\nContent-Length: 4\r\nX-Origin-Stub: 1\r\n\r\nstub'
 
 
+def ws_route() -> Any:
+    if 'ws' not in _FLAGS:
+        from proxy.http.server import HttpWebServerBasePlugin, httpProtocolTypes
+
+        class VfWs(HttpWebServerBasePlugin):
+            """A websocket route: upgrade proposals for /vfws are taken by the web server itself."""
+
+            def routes(self) -> List[Tuple[int, str]]:
+                return [(httpProtocolTypes.WEBSOCKET, r'/vfws$')]
+
+            def handle_request(self, request: Any) -> None:
+                raise AssertionError('websocket route asked to handle a plain request')
+
+            def on_websocket_message(self, frame: Any) -> None:
+                pass
+        _FLAGS['ws'] = VfWs
+    return _FLAGS['ws']
+
+
 def flags(pp: bool = False) -> Any:
     if _FLAGS.get('pid') != os.getpid():
         from vf.props import c07
         _FLAGS['pid'] = os.getpid()
         base = ['--threadless', '--enable-web-server', '--enable-static-server', '--static-server-dir', c07.static_dir()]
-        _FLAGS['f'] = K.make_flags(base, plugins=[c07.route_plugin()])
+        _FLAGS['f'] = K.make_flags(base, plugins=[c07.route_plugin(), ws_route()])
         # the listener expects a HAProxy PROXY protocol line ahead of the first request
-        _FLAGS['pp'] = K.make_flags(base + ['--enable-proxy-protocol'], plugins=[c07.route_plugin()])
+        _FLAGS['pp'] = K.make_flags(base + ['--enable-proxy-protocol'], plugins=[c07.route_plugin(), ws_route()])
     return _FLAGS['pp' if pp else 'f']
 
 
@@ -172,6 +191,11 @@ def check_input(c: Dict[str, Any]) -> Tuple[List[Any], Dict[str, Any]]:
     got = r['got']
     if first_line.startswith(b'CONNECT ') and got.startswith(b'HTTP/1.1 200'):
         info['dontcare'] = 'tunnel-established'
+        return out, info
+    if got.startswith(b'HTTP/1.1 101 '):
+        # the web server took a websocket upgrade: the reply's form is examined by the builder check and by C16; what follows is
+        # not HTTP any more
+        info['dontcare'] = 'protocol-switched'
         return out, info
     n_expect = max(1, len(ref.messages) if ref_complete else 1)
     # (relayed answers of the origin stub are not the proxy's own output; the stub may answer several times when the proxy forwards
@@ -342,6 +366,14 @@ def input_cases(draw: Any, what: str) -> Dict[str, Any]:
         if draw(st.integers(0, 5)) == 0:
             c['req']['method'] = b'CONNECT'
             c['req']['target'] = b'example.test:443'
+        elif draw(st.integers(0, 5)) == 0:
+            # an upgrade proposal to the web server's websocket route, complete or lacking one of its fields
+            c['req']['target'] = b'/vfws'
+            have = {h[0].lower() for h in c['req']['headers']}
+            for h in ([b'Upgrade', b'websocket', 0], [b'Connection', b'Upgrade', 0], [b'Sec-WebSocket-Key', b'dGhlIHNhbXBsZSBub25jZQ==', 0],
+                      [b'Sec-WebSocket-Version', b'13', 0]):
+                if h[0].lower() not in have and draw(st.integers(0, 3)) != 0:
+                    c['req']['headers'].append(h)
         c['muts'] = draw(st.lists(MUT, max_size=3)) if what == 'mutated' else []
         if what == 'conflict':
             # a request with a body whose framing fields contradict each other: a second Content-Length (other value, same value,
